@@ -64,3 +64,20 @@ Example C18_diff_nonvacuous :
   tt_wf cur /\ tt_name cur = [] /\
   tt_iterate (tt_diff cur prev) = [([102;111;111;98;97;114], 4); ([109], 1)].
 Proof. vm_compute. repeat split. Qed.
+
+(* scaling a snapshot by m/d on serialization floors each count: the decoded trie stores floor(v*m/d)
+   (tt_scale_val m d v = v*m/d unless m = d = 1) under every key and Iterate reports exactly the positive ones.
+   tt_fitsb: name lengths, child counts and scaled values are below 2^64. *)
+Theorem ttrie_serialize_scaled : forall m d t,
+  tt_wf t -> tt_name t = [] -> tt_fitsb m d t = true ->
+  exists t', tt_deserialize (tt_serialize m d t) = Some t' /\ tt_wf t' /\ tt_name t' = [] /\
+    (forall k, tt_den t' k = tt_scale_val m d (tt_den t k)) /\
+    (forall K v, In (K, v) (tt_iterate t') <-> (0 < v /\ v = tt_scale_val m d (tt_den t K))).
+Proof. exact TTrieProofs.ttrie_serialize_scaled. Qed.
+Print Assumptions ttrie_serialize_scaled.
+
+Example ttrie_serialize_scaled_nonvacuous :
+  let t := tt_of_multiset [([102;111;111], 5); ([102;111;111;98;97;114], 7); ([102;111], 1)] in
+  tt_wf t /\ tt_name t = [] /\ tt_fitsb 2 3 t = true /\
+  option_map tt_iterate (tt_deserialize (tt_serialize 2 3 t)) = Some [([102;111;111], 3); ([102;111;111;98;97;114], 4)].
+Proof. vm_compute. repeat split. Qed.
